@@ -21,7 +21,7 @@ CLAIMED = {
         "DESIGN.md 3 C02",
     ),
     "C03": (
-        "Hypothesis-generated worlds with simultaneous events (bundled policies and generated plans); per-task duration, release of resources, clock monotonicity and justification of every deferral against shadow models",
+        "Hypothesis-generated worlds with simultaneous events (bundled policies and generated plans, incl. plan-ahead placements of millisecond-unit strategies next to microsecond ones); per-task duration, release of resources, clock monotonicity and justification of every deferral against shadow models",
         "Every task's finish-start is compared with the runtime of the strategy handed to Worker.place_task (exact, or within the variance window), resources must be released at that instant, handled event times must be non-decreasing, and each TASK_NOT_READY/WORKER_NOT_READY must be justified by the shadow history/ledger. Exploration.",
         "Tie order among equal-priority events is not asserted. Scheduler runtime 0, no preemption.",
         "DESIGN.md 3 C03",
@@ -81,9 +81,9 @@ CLAIMED = {
         "DESIGN.md 3 C12",
     ),
     "C13": (
-        "Hypothesis-generated scheduler inputs (reachable states on single-worker pools, non-preemptive and preemptive EDF/LSF, deadlines in mixed time units) with an independent tie-tolerant fit check per unplaced task",
+        "Hypothesis-generated scheduler inputs (reachable states on single-worker pools and, in greedy_multiworker, pools of 1-3 workers; non-preemptive and preemptive EDF/LSF, deadlines in mixed time units) with an independent tie-tolerant fit check per unplaced task; for multi-worker pools the oracle enumerates every assignment of the higher-or-equal priority placements to workers",
         "For every generated invocation of EDF/FIFO/LSF: each unplaced task must not fit any pool once higher-or-equal priority placements are accounted; placed tasks are jointly feasible. Exploration.",
-        "Single-worker pools; priority keys recomputed by the harness (deadline / release / deadline-now-remaining).",
+        "greedy_invocation: single-worker pools. greedy_multiworker: a Placement names the pool only, so an inversion is reported only if the unplaced task fits under every worker assignment (sound, not complete). Priority keys recomputed by the harness (deadline / release / deadline-now-remaining).",
         "DESIGN.md 3 C13",
     ),
     "C14": (
@@ -130,7 +130,7 @@ CLAIMED = {
         "DESIGN.md 3 C19",
     ),
     "C20": (
-        "Hypothesis grammar of STRL trees lowered by the repository's C++ code (driver built from /repo sources with a sequential TBB shim); differential against an independent Python semantics of STRL with exhaustive leaf-decision enumeration; solution-pool enumeration of the rebuilt MILP fed back through populateResults(); metamorphic relations over pruning passes and discretisation",
+        "Hypothesis grammar of STRL trees (incl. Max over strategy variants with their own machine count and duration) lowered by the repository's C++ code (driver built from /repo sources with a sequential TBB shim); differential against an independent Python semantics of STRL with exhaustive leaf-decision enumeration; solution-pool enumeration of the rebuilt MILP fed back through populateResults(); metamorphic relations over pruning passes and discretisation",
         "Translation validation by generated search: for each generated tree the optimum and up to 30 feasible points of the emitted model are decoded and judged by a reference semantics (capacity at every instant, exact Choose amounts/windows, Min/Max/LessThan structure, utility == objective, read-back placements); optimum == brute-force optimum; optimum invariant under the pruning passes; coarser grids only lose utility. Exploration over trees, exhaustive over leaf decisions per tree.",
         "Model solved with gurobipy after a translation mirroring GurobiSolver.cpp; WindowedChoose windows on their own grid (as the front-end passes them); trees with > 40 000 decision vectors are discarded.",
         "DESIGN.md 3 C20",
